@@ -16,7 +16,7 @@ Variable supply0 : N.
 Definition tgt_at (bs : list oblock) (r : N) (k : N) : bdata := tgt (acct_at G bs (N.to_nat r) k).
 
 Definition block_ok (b : oblock) : Prop :=
-  NoDup (keys (ob_mods b)) /\ ob_level b < W.
+  NoDup (keys (ob_mods b)) /\ ob_level b < W /\ ob_supply b < W.
 Definition blocks_ok (bs : list oblock) : Prop := Forall block_ok bs.
 
 (* accuracy of one address's rows / cached entries between rounds lo and hi *)
@@ -61,7 +61,7 @@ Proof. rewrite seq_S. reflexivity. Qed.
 Lemma inv_new_block bs s b : Inv bs s -> block_ok b ->
   Inv (bs ++ [b]) (new_block s (ob_mods b) (ob_supply b) (ob_level b)).
 Proof.
-  intros [dn hm H Hdb Hdn Hdl Hand Hacc [HH Hhm] Hpar Hdbp Hrnd Hrows Hcnd Hcache] [Hbnd Hblv].
+  intros [dn hm H Hdb Hdn Hdl Hand Hacc [HH Hhm] Hpar Hdbp Hrnd Hrows Hcnd Hcache] [Hbnd [Hblv _]].
   assert (Hlen : length (bs ++ [b]) = Datatypes.S (length bs)) by (rewrite app_length; cbn; lia).
   destruct (bump_accts_spec (ob_mods b) (o_accts s) Hbnd Hand) as [Hnd' Hget'].
   apply (mkInv _ _ dn hm H); cbn [new_block o_db o_deltas o_accts o_params o_rows o_dbparams o_cache].
@@ -129,11 +129,18 @@ Proof.
   destruct es as [|f es']; [reflexivity|]. rewrite (IH H2), andb_true_r. apply N.ltb_lt. apply H1. left; reflexivity.
 Qed.
 
+Lemma supply_lt_W bs r : supply0 < W -> blocks_ok bs -> rp_supply (params_spec supply0 bs r) < W.
+Proof.
+  intros H0 Hok. destruct r as [|r]; [exact H0|]. cbn [params_spec].
+  destruct (nth_error bs r) as [b|] eqn:E; [|reflexivity]. cbn [rp_supply].
+  apply nth_error_In in E. unfold blocks_ok in Hok. rewrite Forall_forall in Hok. exact (proj2 (proj2 (Hok b E))).
+Qed.
+
 Lemma level_lt_W bs r : blocks_ok bs -> rp_level (params_spec supply0 bs r) < W.
 Proof.
   intros Hok. destruct r as [|r]; [reflexivity|]. cbn [params_spec].
   destruct (nth_error bs r) as [b|] eqn:E; [|reflexivity]. cbn [rp_level].
-  apply nth_error_In in E. unfold blocks_ok in Hok. rewrite Forall_forall in Hok. exact (proj2 (Hok b E)).
+  apply nth_error_In in E. unfold blocks_ok in Hok. rewrite Forall_forall in Hok. exact (proj1 (proj2 (Hok b E))).
 Qed.
 
 (* the account at rnd is the one at the DB round when no delta up to rnd touches it *)
